@@ -61,12 +61,28 @@ static _Bool nv_std_isfinite(double x) { return !__CPROVER_isnand(x) && !__CPROV
 #define NV_F2I_DEFINED(x) (NV_FIN_F(x) && (x) >= -9223372036854775808.0 && (x) < 9223372036854775808.0)
 
 /* ------------------------------------------------------------------ ::check<tscalar>(lelt, v1, v2) */
-#define NV_CONTRACT_CHECK \
-__CPROVER_requires(__CPROVER_is_fresh(lelt, sizeof(*lelt)) && NV_LELT_OK(*lelt)) \
+/* (parameter names are taken from the source through NV_ARG_<function>_<k>; one contract per instantiation that can exist:
+ * operands of type int64 (i64, ll), int32 (i32) or double (f64), compared as C++ compares them) */
+#define NV_CONTRACT_CHECK(L, A, B) \
+__CPROVER_requires(__CPROVER_is_fresh(L, sizeof(*L)) && NV_LELT_OK(*L)) \
 __CPROVER_assigns() \
-__CPROVER_ensures(__CPROVER_return_value == NV_CMP(*lelt, value1, value2))
-#define NV_CONTRACT_check_i64 NV_CONTRACT_CHECK
-#define NV_CONTRACT_check_f64 NV_CONTRACT_CHECK
+__CPROVER_ensures(__CPROVER_return_value == NV_CMP(*L, A, B))
+#define NV_CONTRACT_check_i64_i64 NV_CONTRACT_CHECK(NV_ARG_check_i64_i64_0, NV_ARG_check_i64_i64_1, NV_ARG_check_i64_i64_2)
+#define NV_CONTRACT_check_i64_ll NV_CONTRACT_CHECK(NV_ARG_check_i64_ll_0, NV_ARG_check_i64_ll_1, NV_ARG_check_i64_ll_2)
+#define NV_CONTRACT_check_i64_i32 NV_CONTRACT_CHECK(NV_ARG_check_i64_i32_0, NV_ARG_check_i64_i32_1, NV_ARG_check_i64_i32_2)
+#define NV_CONTRACT_check_i64_f64 NV_CONTRACT_CHECK(NV_ARG_check_i64_f64_0, NV_ARG_check_i64_f64_1, NV_ARG_check_i64_f64_2)
+#define NV_CONTRACT_check_ll_i64 NV_CONTRACT_CHECK(NV_ARG_check_ll_i64_0, NV_ARG_check_ll_i64_1, NV_ARG_check_ll_i64_2)
+#define NV_CONTRACT_check_ll_ll NV_CONTRACT_CHECK(NV_ARG_check_ll_ll_0, NV_ARG_check_ll_ll_1, NV_ARG_check_ll_ll_2)
+#define NV_CONTRACT_check_ll_i32 NV_CONTRACT_CHECK(NV_ARG_check_ll_i32_0, NV_ARG_check_ll_i32_1, NV_ARG_check_ll_i32_2)
+#define NV_CONTRACT_check_ll_f64 NV_CONTRACT_CHECK(NV_ARG_check_ll_f64_0, NV_ARG_check_ll_f64_1, NV_ARG_check_ll_f64_2)
+#define NV_CONTRACT_check_i32_i64 NV_CONTRACT_CHECK(NV_ARG_check_i32_i64_0, NV_ARG_check_i32_i64_1, NV_ARG_check_i32_i64_2)
+#define NV_CONTRACT_check_i32_ll NV_CONTRACT_CHECK(NV_ARG_check_i32_ll_0, NV_ARG_check_i32_ll_1, NV_ARG_check_i32_ll_2)
+#define NV_CONTRACT_check_i32_i32 NV_CONTRACT_CHECK(NV_ARG_check_i32_i32_0, NV_ARG_check_i32_i32_1, NV_ARG_check_i32_i32_2)
+#define NV_CONTRACT_check_i32_f64 NV_CONTRACT_CHECK(NV_ARG_check_i32_f64_0, NV_ARG_check_i32_f64_1, NV_ARG_check_i32_f64_2)
+#define NV_CONTRACT_check_f64_i64 NV_CONTRACT_CHECK(NV_ARG_check_f64_i64_0, NV_ARG_check_f64_i64_1, NV_ARG_check_f64_i64_2)
+#define NV_CONTRACT_check_f64_ll NV_CONTRACT_CHECK(NV_ARG_check_f64_ll_0, NV_ARG_check_f64_ll_1, NV_ARG_check_f64_ll_2)
+#define NV_CONTRACT_check_f64_i32 NV_CONTRACT_CHECK(NV_ARG_check_f64_i32_0, NV_ARG_check_f64_i32_1, NV_ARG_check_f64_i32_2)
+#define NV_CONTRACT_check_f64_f64 NV_CONTRACT_CHECK(NV_ARG_check_f64_f64_0, NV_ARG_check_f64_f64_1, NV_ARG_check_f64_f64_2)
 
 /* ------------------------------------------------------------------ check-then-assign on a range record `r`
  * G: guard (which alternative is active), DEF: the conversion (TS)x is defined, x: the assigned number.
@@ -93,40 +109,45 @@ __CPROVER_ensures(EQ((r).m_min, NV_OLD((r).m_min)) && EQ((r).m_max, NV_OLD((r).m
 #define NV_SAME_P(EQ, r) (EQ((r).m_value1, NV_OLD((r).m_value1)) && EQ((r).m_value2, NV_OLD((r).m_value2)))
 
 /* ------------------------------------------------------------------ ::update(name, range_t<tscalar>&, tvalue) */
-#define NV_CONTRACT_UPDATE_R(FIN, EQ, TS, DEF) \
-__CPROVER_requires(!nv_thrown && __CPROVER_is_fresh(param, sizeof(*param)) && NV_RANGE_WF(*param)) \
-__CPROVER_assigns(nv_thrown, param->m_value) \
-NV_POST_R(1, FIN, EQ, TS, DEF, *param, value_) \
-__CPROVER_ensures(!nv_thrown ==> __CPROVER_return_value == param)
-
-#define NV_CONTRACT_update_ir_i64 NV_CONTRACT_UPDATE_R(NV_FIN_I, NV_EQ_I, int64_t, 1)
-#define NV_CONTRACT_update_ir_ll  NV_CONTRACT_UPDATE_R(NV_FIN_I, NV_EQ_I, int64_t, 1)
-/* double -> integer parameter, for EVERY double (the property quantifies over NaN / inf assignments and no caller
- * filters them: parameter_t::operator=(double) -> setd -> update(storage, double) -> here) */
-/* a real number assigned to an integer parameter: a value that is not finite or not representable as int64 is rejected
- * before the conversion (it was undefined behaviour before the repair recorded in known_findings.txt).
- * (CBMC's own conversion check wrongly flags x == -2^63, which C++ defines: the printer emits NV_F2I64 for such casts, whose
- * obligation is the exact C++ definedness condition.) */
-#define NV_CONTRACT_update_ir_f64 NV_CONTRACT_UPDATE_R(NV_FIN_I, NV_EQ_I, int64_t, NV_F2I_DEFINED(value_)) \
-__CPROVER_ensures(!NV_F2I_DEFINED(value_) ==> nv_thrown)
-#define NV_CONTRACT_update_fr_f64 NV_CONTRACT_UPDATE_R(NV_FIN_F, NV_EQ_F, double, 1)
-#define NV_CONTRACT_update_fr_i64 NV_CONTRACT_UPDATE_R(NV_FIN_F, NV_EQ_F, double, 1)
+#define NV_CONTRACT_UPDATE_R(FIN, EQ, TS, DEF, P, X) \
+__CPROVER_requires(!nv_thrown && __CPROVER_is_fresh(P, sizeof(*P)) && NV_RANGE_WF(*P)) \
+__CPROVER_assigns(nv_thrown, P->m_value) \
+NV_POST_R(1, FIN, EQ, TS, DEF, *P, X) \
+__CPROVER_ensures(!nv_thrown ==> __CPROVER_return_value == P)
+/* one contract per (parameter kind, assigned type) the templates can be instantiated for; only those that exist in the
+ * current source become targets.  A real number assigned to an integer parameter: a value that is not finite or not
+ * representable as int64 is rejected before the conversion (it was undefined behaviour before the repair recorded in
+ * known_findings.txt; the printer emits NV_F2I64 for such casts, whose obligation is the exact C++ definedness condition). */
+#define NV_UPD_R_I(n) NV_CONTRACT_UPDATE_R(NV_FIN_I, NV_EQ_I, int64_t, 1, NV_ARG_##n##_1, NV_ARG_##n##_2)
+#define NV_UPD_R_F(n) NV_CONTRACT_UPDATE_R(NV_FIN_F, NV_EQ_F, double, 1, NV_ARG_##n##_1, NV_ARG_##n##_2)
+#define NV_CONTRACT_update_ir_i64 NV_UPD_R_I(update_ir_i64)
+#define NV_CONTRACT_update_ir_ll  NV_UPD_R_I(update_ir_ll)
+#define NV_CONTRACT_update_ir_i32 NV_UPD_R_I(update_ir_i32)
+#define NV_CONTRACT_update_ir_f64 NV_CONTRACT_UPDATE_R(NV_FIN_I, NV_EQ_I, int64_t, NV_F2I_DEFINED(NV_ARG_update_ir_f64_2), NV_ARG_update_ir_f64_1, NV_ARG_update_ir_f64_2) \
+__CPROVER_ensures(!NV_F2I_DEFINED(NV_ARG_update_ir_f64_2) ==> nv_thrown)
+#define NV_CONTRACT_update_fr_f64 NV_UPD_R_F(update_fr_f64)
+#define NV_CONTRACT_update_fr_i64 NV_UPD_R_F(update_fr_i64)
+#define NV_CONTRACT_update_fr_ll  NV_UPD_R_F(update_fr_ll)
+#define NV_CONTRACT_update_fr_i32 NV_UPD_R_F(update_fr_i32)
 
 /* ------------------------------------------------------------------ ::update(name, pair_range_t<tscalar>&, v1, v2) */
-#define NV_CONTRACT_UPDATE_P(FIN, EQ, TS, DEF) \
-__CPROVER_requires(!nv_thrown && __CPROVER_is_fresh(param, sizeof(*param)) && NV_PAIR_WF(*param)) \
-__CPROVER_assigns(nv_thrown, param->m_value1, param->m_value2) \
-NV_POST_P(1, FIN, EQ, TS, DEF, *param, value1_, value2_) \
-__CPROVER_ensures(!nv_thrown ==> __CPROVER_return_value == param)
-
-#define NV_CONTRACT_update_ip_i64 NV_CONTRACT_UPDATE_P(NV_FIN_I, NV_EQ_I, int64_t, 1)
-#define NV_CONTRACT_update_ip_ll  NV_CONTRACT_UPDATE_P(NV_FIN_I, NV_EQ_I, int64_t, 1)
-#define NV_CONTRACT_update_ip_i32 NV_CONTRACT_UPDATE_P(NV_FIN_I, NV_EQ_I, int64_t, 1)
-#define NV_CONTRACT_update_ip_f64 NV_CONTRACT_UPDATE_P(NV_FIN_I, NV_EQ_I, int64_t, NV_F2I_DEFINED(value1_) && NV_F2I_DEFINED(value2_)) \
-__CPROVER_ensures(!(NV_F2I_DEFINED(value1_) && NV_F2I_DEFINED(value2_)) ==> nv_thrown)
-#define NV_CONTRACT_update_fp_f64 NV_CONTRACT_UPDATE_P(NV_FIN_F, NV_EQ_F, double, 1)
-#define NV_CONTRACT_update_fp_i64 NV_CONTRACT_UPDATE_P(NV_FIN_F, NV_EQ_F, double, 1)
-#define NV_CONTRACT_update_fp_i32 NV_CONTRACT_UPDATE_P(NV_FIN_F, NV_EQ_F, double, 1)
+#define NV_CONTRACT_UPDATE_P(FIN, EQ, TS, DEF, P, X1, X2) \
+__CPROVER_requires(!nv_thrown && __CPROVER_is_fresh(P, sizeof(*P)) && NV_PAIR_WF(*P)) \
+__CPROVER_assigns(nv_thrown, P->m_value1, P->m_value2) \
+NV_POST_P(1, FIN, EQ, TS, DEF, *P, X1, X2) \
+__CPROVER_ensures(!nv_thrown ==> __CPROVER_return_value == P)
+#define NV_UPD_P_I(n) NV_CONTRACT_UPDATE_P(NV_FIN_I, NV_EQ_I, int64_t, 1, NV_ARG_##n##_1, NV_ARG_##n##_2, NV_ARG_##n##_3)
+#define NV_UPD_P_F(n) NV_CONTRACT_UPDATE_P(NV_FIN_F, NV_EQ_F, double, 1, NV_ARG_##n##_1, NV_ARG_##n##_2, NV_ARG_##n##_3)
+#define NV_CONTRACT_update_ip_i64 NV_UPD_P_I(update_ip_i64)
+#define NV_CONTRACT_update_ip_ll  NV_UPD_P_I(update_ip_ll)
+#define NV_CONTRACT_update_ip_i32 NV_UPD_P_I(update_ip_i32)
+#define NV_IP_F64_DEF (NV_F2I_DEFINED(NV_ARG_update_ip_f64_2) && NV_F2I_DEFINED(NV_ARG_update_ip_f64_3))
+#define NV_CONTRACT_update_ip_f64 NV_CONTRACT_UPDATE_P(NV_FIN_I, NV_EQ_I, int64_t, NV_IP_F64_DEF, NV_ARG_update_ip_f64_1, NV_ARG_update_ip_f64_2, NV_ARG_update_ip_f64_3) \
+__CPROVER_ensures(!NV_IP_F64_DEF ==> nv_thrown)
+#define NV_CONTRACT_update_fp_f64 NV_UPD_P_F(update_fp_f64)
+#define NV_CONTRACT_update_fp_i64 NV_UPD_P_F(update_fp_i64)
+#define NV_CONTRACT_update_fp_ll  NV_UPD_P_F(update_fp_ll)
+#define NV_CONTRACT_update_fp_i32 NV_UPD_P_F(update_fp_i32)
 
 /* ------------------------------------------------------------------ ::update(name, storage_t&, number | tuple)
  * the std::visit dispatch: the active alternative decides; a parameter of any other kind rejects the assignment.
